@@ -181,12 +181,15 @@ class EmitEngine(object):
                     expect = spec.version_of_emitted(case["vector"])
                 except Exception:
                     expect = None
-            if isinstance(view["clean"], str):
-                emitted.append(view["clean"])
-                vio += validate("cli-cleaned-vector", view["clean"], self.ctors, expect)
-            if isinstance(view["rh"], str):
-                emitted.append(view["rh"])
-                vio += validate("cli-redhat-vector", rh_vector_part(view["rh"]), self.ctors, expect)
+            # (the emitted string is the first column of its line; further columns are presentation)
+            if isinstance(view["clean"], str) and view["clean"].split():
+                cl = view["clean"].split()[0]
+                emitted.append(cl)
+                vio += validate("cli-cleaned-vector", cl, self.ctors, expect)
+            if isinstance(view["rh"], str) and view["rh"].split():
+                rh = view["rh"].split()[0]
+                emitted.append(rh)
+                vio += validate("cli-redhat-vector", rh_vector_part(rh), self.ctors, expect)
             dg = runner23.digest([item["argv"], res["events"], res["stdout"], res["exit"]])
             steps = res["reads"] + 1
         elif item["ops"][0]["op"] == "new":
